@@ -28,6 +28,7 @@ class Opts:
         self.foreign = False
         self.maxchan = 65535
         self.chani = 0
+        self.both = False
         self.__dict__.update(k)
 
 
@@ -148,6 +149,15 @@ class Scenario:
         t, o = self.t, self.o
         last = None
         same = 0
+        # In the real runonce a frame delivery (Mux.callback -> handle) is always followed, in the same
+        # round, by one callback of every Proxy (the mux files are in every Proxy's socks).  The random
+        # phase may have delivered frames without that follow-up: catch up once before judging liveness.
+        for end in ('c', 's'):
+            for i, f in enumerate(t.flows):
+                p = f.sproxy if end == 's' else f.cproxy
+                hl = t.shandlers if end == 's' else t.chandlers
+                if p is not None and p in hl:
+                    self.do(('cb', end, i, Io('ok', 'd65536', 's65536', False)))
         for rnd in range(max_rounds):
             if self.stop:
                 return False
